@@ -111,7 +111,12 @@ func (ct *CSVTable) emitRow(w io.Writer, columnCount int, cells []tabular.Cell) 
 			return err
 		}
 	}
-	if _, err := fmt.Fprint(w, ct.csvEscape(cells[i].String())); err != nil {
+	if max > 0 {
+		if _, err := fmt.Fprint(w, ct.csvEscape(cells[i].String())); err != nil {
+			return err
+		}
+	} else if _, err := fmt.Fprint(w, "\"\""); err != nil {
+		// a row with no cells at all: the first field is padding too
 		return err
 	}
 	i++
